@@ -14,7 +14,7 @@ def hook_commits():
 CHECKS = {
  "C12": dict(
     level="exploration",
-    technique="fuzzing through one in-process entry point with the output-file contract as in-target oracle: corpus replay, rapid schema-aware YAML node confusion, rapid arbitrary glob patterns and flag subsets; thorough tier adds Go native coverage-guided fuzzing (12 workers, fixed wall budget)",
+    technique="fuzzing through one in-process entry point with the output-file contract as in-target oracle: corpus replay (repository YAML, committed corpus, hostile constants, declared-version forms x build versions), rapid schema-aware YAML node confusion, rapid well-formed documents with injected semantic defects, rapid arbitrary glob patterns and flag subsets; the build version is part of every input; thorough tier adds Go native coverage-guided fuzzing (12 workers, fixed wall budget)",
     text="Searches the input space for panics, hangs and contract breaks; the quick tier is deterministic for a given VERIF_SEED (no native fuzzing), the thorough tier adds several hundred thousand coverage-guided executions.",
     note="Never establishes absence. Inputs with dense strongly connected components or over 64 KiB are skipped by an over-approximating pre-pass; goimports' package search is kept away from the module cache.",
     ref="DESIGN.md §4 C12"),
@@ -26,8 +26,8 @@ CHECKS = {
     ref="DESIGN.md §4 C19"),
  "C10": dict(
     level="fault_enumeration",
-    technique="complete enumeration of a fault matrix (configuration class x flag subset x output pre-state x input fault, each with and without --quiet) against the real binary, plus rapid-generated configurations placed in drawn cells with the reference model as verdict oracle",
-    text="Every cell of the 15 x 8 x 5 x 5 matrix is executed in both tiers; the iff between exit status 0 and a complete written file, the untouched -o path on every failure (lstat-level comparison), the numbered list / step count agreement and the --quiet contract are checked in each.",
+    technique="complete enumeration of a fault matrix (configuration class x flag subset x output pre-state x input fault x companion input file, each with and without --quiet) against the real binary, plus rapid-generated configurations placed in drawn cells with the reference model as verdict oracle",
+    text="Every cell of the 18 x 8 x 5 x 5 x 4 matrix (configuration class x flag subset x output pre-state x input fault x companion file: none / a valid second file before / after / matched by the same glob) is executed in both tiers; the iff between exit status 0 and a complete written file, the untouched -o path on every failure (lstat-level comparison), the numbered list / step count agreement and the --quiet contract are checked in each.",
     note="Root sandbox: unwritable outputs are injected as directory, missing parent and /dev/full rather than by permissions; stdout faults are out of scope.",
     ref="DESIGN.md §4 C10"),
  "C08": dict(
@@ -76,7 +76,7 @@ CHECKS = {
     level="exploration",
     technique="differential testing normal vs --stub on rapid-generated accepted and defect-injected configurations: verdict parity, go/parser API-surface parity, compilation of both (stub with its tag, and against a types-only variant of the fixture module), reflection parity and panic behaviour in a probe",
     text="For every generated configuration the two modes must agree on accept/reject and diagnostics; for accepted ones the declared API (package, type, constructor, every method signature) must be identical, the stub must compile while the user packages offer types only, and its constructor and getters must panic.",
-    note="Trusts go/parser/printer for the surface comparison and the Go toolchain for compilation.",
+    note="Trusts go/parser/printer for the surface comparison and the Go toolchain for compilation. Known finding K3 (7 keys): a configuration whose only defect is an expression that cannot be valid Go is rejected by the formatter in normal mode and accepted with --stub; enumerated per position, reported as KNOWN-FINDING.",
     ref="DESIGN.md §4 C17"),
  "C13": dict(
     level="exploration",
